@@ -27,6 +27,23 @@ MAX_INLINE = 4
 
 
 # ------------------------------------------------------------------ abstract values
+class Rec:
+    """A small record of the package (NamedTuple / dataclass without __init__): its fields by name, in order."""
+
+    def __init__(self, cls: str, fields: dict):
+        self.cls = cls
+        self.fields = fields
+
+    def __repr__(self) -> str:
+        return f"{self.cls}({', '.join(f'{k}={v!r}' for k, v in self.fields.items())})"
+
+    def __eq__(self, other: object) -> bool:
+        return isinstance(other, Rec) and other.cls == self.cls and other.fields == self.fields
+
+    def __hash__(self) -> int:
+        return hash((self.cls, tuple(self.fields)))
+
+
 class Opq:
     """Opaque value with identity (decisions about it are memoised per path)."""
 
@@ -414,6 +431,17 @@ class Flow:
             states = nxt
         return [(s, build(vals)) for s, vals in states]
 
+    def _record_fields(self, name: str) -> list[str] | None:
+        ent = self.repo.class_table.get(name)
+        if not ent:
+            return None
+        c = ent[1]
+        is_nt = any(ast.unparse(b).split(".")[-1] == "NamedTuple" for b in c.bases)
+        is_dc = any(ast.unparse(d).split("(")[0].split(".")[-1] == "dataclass" for d in c.decorator_list)
+        if not (is_nt or is_dc) or any(isinstance(n, ast.FunctionDef) and n.name == "__init__" for n in c.body) or self.repo.is_subclass(name, "Expression"):
+            return None
+        return [n.target.id for n in c.body if isinstance(n, ast.AnnAssign) and isinstance(n.target, ast.Name)]
+
     def named_opq(self, name: str) -> Opq:
         if name not in self.self_opq:
             self.self_opq[name] = Opq(name)
@@ -433,6 +461,10 @@ class Flow:
                     return Bound(base, attr)
                 return self.named_opq(p)
             return PathRef(p)
+        if isinstance(base, Rec):
+            if attr in base.fields:
+                return base.fields[attr]
+            raise self.unsupported(f"attribute {ast.unparse(node)} of the record {base.cls} (only its fields are modelled)")
         if isinstance(base, MatchObj) and attr == "end":
             return Bound(base, "end")
         if isinstance(base, (LRef, AList, str, Sym, ChildRef, Opq, Bound, tuple)) or base is None:
@@ -598,7 +630,7 @@ class Flow:
             return [(st, bool(v.items))]
         if isinstance(v, LRef):
             return [(st, bool(st.lists.get(v.lid)))]
-        if isinstance(v, (MatchObj, ChildRef, PathRef, Sym, V, PairVal, Bound)):
+        if isinstance(v, (MatchObj, ChildRef, PathRef, Sym, V, PairVal, Bound, Rec)):
             return [(st, True)]
         if isinstance(v, tuple) and v and v[0] == "atomic":
             return self.cmp(st, ast.Gt(), v, 0, node or ast.Constant(0))
@@ -738,6 +770,18 @@ class Flow:
                     return [(s, Opq(ast.unparse(node)[:40]))]
 
                 return self.with_args(st, node, pick)
+            rec_fields = self._record_fields(name)
+            if rec_fields is not None and name not in st.env:
+                def mk(s, a, kw, rec_fields=rec_fields, name=name):  # noqa: ANN001, ANN202
+                    if len(a) > len(rec_fields) or any(k not in rec_fields for k in (kw or {})):
+                        raise self.unsupported(f"{name}() takes {rec_fields}")
+                    vals = dict(zip(rec_fields, a))
+                    vals.update(kw or {})
+                    if len(vals) != len(rec_fields):
+                        raise self.unsupported(f"{name}() with defaults")
+                    return [(s, Rec(name, {k: vals[k] for k in rec_fields}))]
+
+                return self.with_args(st, node, mk)
             if name == "bool" and len(node.args) == 1 and not node.keywords:
                 return [(s, b) for s, b in self.truth(st, node.args[0])]  # the truth of its argument, as a branch sees it
             if name in ("str", "repr", "int", "bool", "max", "min", "range", "zip", "sorted", "any", "all", "print", "tuple", "type"):
@@ -1375,6 +1419,8 @@ class Flow:
             st.env[t.id] = self.deref(st, v) if isinstance(v, PathRef) and v.path in _SNAPSHOT_ON_READ else v
             return
         if isinstance(t, ast.Tuple):
+            if isinstance(v, Rec):
+                v = tuple(v.fields.values())  # a record unpacks into its fields, in order
             if isinstance(v, tuple) and len(v) == len(t.elts) and not (v and v[0] in ("len", "find", "atomic", "ctx", "slice", "tag", "input_slice", "match_end", "len_input")):
                 for tt, vv in zip(t.elts, v, strict=True):
                     self.assign(st, tt, vv)
